@@ -236,6 +236,10 @@ func (self *TextParser) ParseRequest() error {
 					self.argsCount = argsCount
 					self.cargIndex = 0
 					self.bufIndex++
+					if argsCount <= 0 {
+						self.stage = 0
+						return nil
+					}
 					self.stage = 2
 					break
 				} else if self.rbuf[self.bufIndex] != '\r' {
@@ -380,6 +384,10 @@ func (self *TextParser) ParseResponse() error {
 					self.argsCount = argsCount
 					self.cargIndex = 0
 					self.bufIndex++
+					if argsCount <= 0 {
+						self.stage = 0
+						return nil
+					}
 					self.stage = 2
 					break
 				} else if self.rbuf[self.bufIndex] != '\r' {
